@@ -67,7 +67,7 @@ prop("C07", "c07",
      thorough=[shards(name="main"), miri(rayon=True, name="miri", args=["--tiny"], scale=0.00016)])
 
 prop("C10", "c10",
-     "cases = generated plans from every profile incl. 200-600 systems; pure layout oracle: for every system and every stage it skipped after the first allowed one, search for an earlier-registered conflicting system in that stage or a direct dependency in that stage or later; max_threads() == widest stage (top level and every batch). "
+     "cases = generated plans from every profile incl. 200-600 systems, runs of add_barrier calls whose length sits at a counter-width boundary (255..257, 511..513, 767..769, 65535..65537) and registration attempts that panic and are caught (ill-formed calls; systems whose own accessor / reads / writes / running_time panics while the builder inspects them); pure layout oracle: for every system and every stage it skipped after the first allowed one, search for an earlier-registered conflicting system in that stage or a direct dependency in that stage or later; max_threads() == widest stage (top level and every batch). "
      "distinct non-trivial = (plan,layout) in which >=1 skipped stage had to be justified.")
 
 prop("C12", "c12",
@@ -82,15 +82,15 @@ prop("C04", "c04",
      "distinct non-trivial = (layout hash, call-sequence hash) with >=2 stages or a batch, and a sequence of >=2 calls.")
 
 prop("C19", "c19",
-     "cases = generated plans from every profile; recovered layouts (nested lists of registration identities) compared between the original and: an in-process rebuild, a consistent renaming of every system (unnamed stay unnamed), an injective relabelling of all resources not pinned by a static Rust type (across types and dynamic ids), a permutation of every dynamic system's read and write lists, and all of these at once. "
+     "cases = generated plans from every profile; recovered layouts (nested lists of registration identities) compared between the original and: an in-process rebuild, a consistent renaming of every system (unnamed stay unnamed), an injective relabelling of all resources not pinned by a static Rust type (across types and dynamic ids), a permutation of every dynamic system's read and write lists, all of these at once, the same sequence without its caught failed registration attempts (they registered nothing), and (every 4th case) a build on a fresh thread that has never built anything. "
      "A second leg re-runs the same cases in another process (fresh ASLR / hash seeds) and in a build of the crate without the `parallel` feature and compares the (plan hash, layout hash) rows of all three. "
      "distinct non-trivial = (plan hash, transformation) where the transformation really changed >=1 name / id / list order.",
      quick=[shards(name="main"), {"kind": "xcfg", "name": "xcfg", "what": "layout"}],
      thorough=[shards(name="main"), {"kind": "xcfg", "name": "xcfg", "what": "layout"}])
 
 prop("C20", "c20",
-     "cases = generated builders (names with spaces, dashes, slashes, unicode; 10-60% unnamed systems; batches; empty builders); `{:?}` and `{:#?}` of every builder level (inner builders just before add_batch, the top builder before build) under catch_unwind, parsed with a strict seq!/par!/seq! grammar and compared positionally with the executed layout (shape hook + identification run): stage/group/size structure, total count, and the sanitised name at every position of a named system (any non-empty token is accepted for unnamed ones). "
-     "A fifth of the builders also see registration attempts that fail (unknown dependency / reused name) and are caught, after which registration continues. "
+     "cases = generated builders (names with spaces, dashes, slashes, unicode; 10-60% unnamed systems; batches; empty builders); `{:?}`, `{:#?}` and one spelling with width / precision / fill / sign flags (e.g. `{:.7?}`, `{:24?}`, `{:*>12?}`, `{:+#300?}`) of every builder level (inner builders just before add_batch, the top builder before build) under catch_unwind, parsed with a seq!/par!/seq! grammar and compared positionally with the executed layout (shape hook + identification run): stage/group/size structure, total count, the sanitised name at every position of a named system; an unnamed system may be shown by any token that is not a name handed to this builder for something else. "
+     "A fifth of the builders (plus the generator's own share) also see registration attempts that fail and are caught, after which registration continues: unknown dependency, reused name, and systems - named or not - whose own accessor() / reads() / writes() / running_time() panics while the builder inspects them. "
      "distinct non-trivial = (plan, layout) with a stage of >=2 groups and >=1 unnamed or sanitised name.")
 
 prop("C18", "c18",
@@ -99,7 +99,7 @@ prop("C18", "c18",
      "distinct non-trivial = sequence hash with >=20 calls or an ill-formed call that was reached.")
 
 prop("C13", "c13",
-     "cases = generated plans with batches nested 0..3 deep (HCtl and MultiDispatcher controllers with library SystemData as declared data), static library-typed systems, dynamic systems and thread-local systems, set up 1..3 times in worlds where a random subset of the 32 resources pre-exists with sentinel values, with inserts/removes between rounds, then disposed; every 8th case uses AsyncDispatcher::setup. "
+     "cases = generated plans with batches nested 0..3 deep (HCtl and MultiDispatcher controllers with library SystemData as declared data), static library-typed systems, dynamic systems and thread-local systems, set up 1..3 times in worlds where a random subset of the 32 resources pre-exists with sentinel values, with inserts/removes and (half of the time) a dispatch between rounds - one that completes or one in which an ordinary, thread-local or batch-member system panics and the caller catches it - then disposed; every 8th case uses AsyncDispatcher::setup, half of those a second time after dispatch + wait in which a thread-local system may panic (caught). "
      "setup and dispose are called through the inherent methods or through the dispatcher's RunNow impl (RunNow::setup, RunNow::dispose on the boxed dispatcher). "
      "Oracles: per-system setup counter == number of setup calls, dispose counter == 1 (any depth, thread-local included); world before/after against a reference (pre-existing values untouched, default-providing accessors create the default, Option/Expect create nothing). "
      "distinct non-trivial = (plan hash, initial-world density) with a batch member or thread-local system and >=1 pre-existing resource.")
@@ -149,21 +149,22 @@ prop("C08", "c08",
      thorough=[shards(name="main"), san("tsan", name="tsan", args=["--stress-only"], scale=0.001), miri(name="miri", args=["--small"], scale=0.0002)])
 
 prop("C09", "c09",
-     "cases = histories of 80 operations over 8 value types (ZST, u8, [u64;32], String, Vec<u8>, align-16, two drop-tracked types of different size) x 3 dynamic ids: insert, insert_by_id, remove, remove_by_id, entry().or_insert(_with), has_value(_raw), get_mut (+overwrite), get_mut_raw, fetch/fetch_mut, try_fetch(_mut), try_fetch(_mut)_by_id (+overwrite), setup of default-providing and of optional/expecting accessors, exec; 15% of the id-taking calls carry a different type argument (different size). "
+     "cases = histories of 80 operations over 9 value types (ZST, u8, [u64;32], String, Vec<u8>, align-16, two drop-tracked types of different size, and Box<dyn Resource> - a resource that is itself a type-erased box around a drop-tracked value) x 3 dynamic ids: insert, insert_by_id, remove, remove_by_id, entry().or_insert(_with), has_value(_raw), get_mut (+overwrite), get_mut_raw, fetch/fetch_mut, try_fetch(_mut), try_fetch(_mut)_by_id (+overwrite), setup of default-providing and of optional/expecting accessors, exec; 15% of the id-taking calls carry a different type argument (different size). "
      "One drop-tracked type has a destructor that can be made to panic: replacing such a value (caught) must still leave the new value in place. "
+     "Leaked-guard episodes (mem::forget of a Fetch / FetchMut: safe code): while the guard is leaked presence is unaffected and conflicting by-id fetches panic; insert / insert_by_id over it must succeed and the value it put there must be fetchable exclusively right away (a new value was never borrowed); only calls whose behaviour on a leaked borrow is the same in debug and release builds are made inside an episode. "
      "Oracles: every result against a reference map; after every step has_value_raw == model for all 24 keys and the concrete type_id of every stored box == the key's type; mismatching calls must panic with the wrong-type-id message and change nothing; at the end every tracked value was dropped exactly once. "
      "distinct non-trivial = history hash with >=1 replace, >=1 successful remove and >=1 mismatching-type call.",
      crash_is_violation=True,
      thorough=[shards(name="main"), san("asan", name="asan", scale=0.1), miri(name="miri", scale=0.00008)])
 
 prop("C17", "c17",
-     "cases = histories of 70 operations over a MetaTable<dyn Trait> and a world with 12 implementor types (ZST, 1 byte ... 4 KiB, align 16/64, heap-owning): register (with repeats), insert / remove, insert under another dynamic id, get / get_mut on present resources, iter / iter_mut collecting all items, iteration under a live typed exclusive guard, typed writes; every 50th case a CastFrom that returns a different address. "
+     "cases = histories of 70 operations over a MetaTable<dyn Trait> and a world with 12 implementor types (ZST, 1 byte ... 4 KiB, align 16/64, heap-owning): register (with repeats), insert / remove, insert under another dynamic id, get / get_mut on present resources, iter / iter_mut collecting all items, iteration under a live typed exclusive guard, typed writes; every 50th case a CastFrom that returns a different address; every 50th case 2..6 threads use one table at once (lookups of all types through shared fetches, iter() now and then; released together from a spin barrier) and every lookup must denote the very resource it was given. "
      "Iterators are consumed through collect or through skip / step_by / nth / last / take; the wrong cast is also tried on a zero-sized type through get, get_mut, iter and iter_mut. "
      "Oracles: reference registration list (first-registration order) and presence map; get(_mut) is Some <=> registered; every yielded object's self-reported address == the resource's address and its type tag == the concrete type's; iter sequences == [registration order ∩ present under dyn id 0] with model values; shared/exclusive interplay with typed fetches; the bad cast must panic with the library's message. "
      "The thorough tier repeats a quarter of the histories against the crate built with its `nightly` feature (the ptr_metadata implementation of the meta table) on the nightly toolchain. "
      "distinct non-trivial = history hash with a repeated registration and a registered-but-absent type.",
      crash_is_violation=True,
-     thorough=[shards(name="main"), san("asan", name="asan", scale=0.1), miri(name="miri", args=["--small"], scale=0.00016), shards(name="nightly-meta", build="nightlymeta", optional=True, scale=0.25)])
+     thorough=[shards(name="main"), san("asan", name="asan", scale=0.1), san("tsan", name="tsan", args=["--concurrent-only"], scale=0.002), miri(name="miri", args=["--small"], scale=0.00016), shards(name="nightly-meta", build="nightlymeta", optional=True, scale=0.25)])
 
 prop("C06", "c06",
      "cases = Rust *programs*: SystemData type expressions generated by gen_c06.py, compiled against /repo and run. Families: (i) rotation - every arity 1..26 x 12 rotations of the member kinds (Read, Write, ReadExpect, WriteExpect, Option<Read>, Option<Write>, (), PhantomData, nested tuple, derived struct, Read/Write with a user-written SetupHandler), position p on its own resource A_p; (ii) random per seed - nestings to depth 3, tuples up to arity 26, derived named and tuple structs with an extra lifetime, redundant where-clauses, hand-written generic derives (type parameters, where-clauses, two lifetimes), repeated reads of one resource and (15%) deliberately conflicting members; (iii) thorough only: the full cross family, every (arity, position, kind) triple as its own type. "
